@@ -129,7 +129,9 @@ class Script:
        for adv in (1, 2) for cold in (False, True)]
     + [{"S": 3, "mode": "order3", "_pre": f"sv == 0 and rst == 0 and ping == 0 and b0 == 0 and p0 == {a} and aband == 0 and d0 == 0 and c0 == 0"} for a in range(3)]
     + [{"S": 3, "mode": "settings3", "_pre": "rst == 0 and ping == 0 and b0 == 0 and p1 == 0 and p2 == 0 and p3 == 0 and p4 == 0 and p5 == 0 and aband == 0 and d0 == 0 and c0 == 0"}],
-    thorough=[{"S": 3, "mode": "all3", "_pre": f"p0 == {a} and p1 == {b} and ping == 0 and rst == {r} and d0 == 0 and c0 == 0 and sv == 0"} for a in range(3) for b in range(3) for r in (0, 1, 2)]
+    thorough=[{"S": 3, "mode": "all3", "_timeout": 900,
+               "_pre": f"p0 == {a} and p1 == {b} and ping == 0 and rst == {r} and d0 == 0 and c0 == 0 and sv == 0 and b0 in (0, 3, 6) and aband <= 1"}
+              for a in range(3) for b in range(3) for r in (0, 1, 2)]
     + [{"S": 3, "mode": "settings3", "_pre": f"rst == 0 and ping == 0 and p0 == {a} and p3 == 0 and p4 == 0 and p5 == 0 and d0 == 0 and c0 == 0 and sv > 0 and b0 in (0, 3)"} for a in range(3)]
     + [{"S": 3, "mode": "sched3", "_pre": f"sv == 0 and rst == 0 and ping == 0 and aband == 0 and b0 in (0, 3) and p0 == {a} and p3 == 0 and p4 == 0 and p5 == 0"} for a in range(3)]
     + [{"S": 3, "mode": "limited", "adv": adv, "cold": cold, "_pre": "sv == 0 and rst == 0 and ping == 0 and b0 in (0, 3) and p3 == 0 and p4 == 0 and p5 == 0 and aband == 0"}
